@@ -2,6 +2,7 @@ package main
 
 import (
 	"fmt"
+	"sort"
 	"go/token"
 	"go/types"
 	"os"
@@ -32,6 +33,7 @@ type violation struct {
 	Events []string          `json:"events,omitempty"` // expected native event trace
 	CRCPinned bool           `json:"crc_pinned"`
 	OSTrace []string         `json:"os_trace,omitempty"`
+	SchedEvents []string     `json:"sched_events,omitempty"`
 }
 
 type Machine struct {
@@ -77,6 +79,8 @@ type Machine struct {
 	preemptBudget   int
 	inAtomicSection int
 	schedTrace      []string
+	hookTrace       []string // every schedule-hook event of a named thread, in order: "thread|point"
+	hookOnly        bool     // preemptions are offered at schedule hooks only (natively enforceable)
 
 	// per-path bookkeeping
 	events     []event // Reach / Assert / Observe in program order
@@ -186,10 +190,16 @@ func (m *Machine) checkShard() {
 		return
 	}
 	// count fork decisions so far
+	// the key must not depend on the order in which a solver enumerated values:
+	// value decisions contribute the chosen VALUE, Boolean/free decisions the index
 	var key []int
 	for _, d := range m.trace {
 		if d.forked {
-			key = append(key, d.chosen)
+			if d.vals != nil && d.chosen < len(d.vals) {
+				key = append(key, int(d.vals[d.chosen]%1000003))
+			} else {
+				key = append(key, d.chosen)
+			}
 		}
 	}
 	if len(key) != m.shardDepth {
@@ -346,6 +356,7 @@ func (m *Machine) concretize(what string, t *Term, limit int) uint64 {
 	if len(vals) == 0 {
 		m.abort("no value at %s", what)
 	}
+	sort.Slice(vals, func(i, j int) bool { return vals[i] < vals[j] })
 	var pend []int
 	for i := 1; i < len(vals); i++ {
 		pend = append(pend, i)
